@@ -155,6 +155,14 @@ def bigbig_pairs(rng, k, op, n):
                 (c, 1 << 32), (e, 0), (0, 0), (a * c, a), (a * c + 1, c), (c, (1 << 31) + 5)] + base
     if op == 2:
         base = [(c, a), (a, c), (a, a), (a + 1, a), (a, a + 1), (0, e), (val([0] * L + [1]), 1)] + base
+    if op in (6, 7, 8):
+        # bit operators: operands whose two's-complement carry runs through whole digits (powers of the digit
+        # base, B^j - 1, low zero digits) with unequal lengths, so the in-place kernels that reuse one
+        # operand's buffer see every carry/extension case; signs are applied below
+        Bj = [1 << (64 * j) for j in (1, 2, 3, 5)]
+        base = [(1, Bj[0]), (Bj[0], 1), (1, Bj[1]), (Bj[1], Bj[0]), (Bj[0] - 1, Bj[1]), (Bj[1], Bj[0] - 1), (Bj[2], Bj[2]),
+                (Bj[0] + 1, Bj[2]), (Bj[3], 3), (3, Bj[3]), (Bj[1] - 1, Bj[1] - 1), (a << 128, e), (e, a << 128),
+                (a << 64, c), (c, a << 64), (Bj[2] - Bj[0], Bj[1]), (2, Bj[0]), (Bj[0], 2)] * 4 + base
     out = []
     i = 0
     while len(out) < n:
